@@ -17,6 +17,7 @@ from pywbem_mock._mainprovider import MainProvider
 mp._format = lambda *a, **k: 'msg'     # stub: message formatting (not the subject)
 TAGS = []
 PART, NPARTS = mode.part()
+N_MAX = 5 if mode.tier() == 'quick' else 8
 
 
 def in_part(x):
@@ -33,7 +34,7 @@ def mklist(n, base=0):
     return out
 
 
-def small_concrete(v, limit=10):
+def small_concrete(v, limit=N_MAX + 2):
     """Replace a symbolic int below `limit` by the equal concrete int (forks `limit` ways).
     Needed because CrossHair's lazy slice views of a list alias the list: `x = l[0:sym]; del
     l[0:sym]` changes x under CrossHair but not in CPython.  Values >= limit stay symbolic."""
@@ -68,18 +69,13 @@ class Prov:
     _validate_pull_operations_enabled = MainProvider._validate_pull_operations_enabled
 
 
-def pull_step(n: int, n2: int, moc: Optional[int], ctype: int, rtype: int, which: int,
-              ns_ok: bool) -> Optional[str]:
-    """
-    pre: 1 <= n <= 8 and 1 <= n2 <= 2
-    pre: moc is None or moc >= 0
-    pre: 0 <= ctype < 3 and 0 <= rtype < 3 and 0 <= which < 3
-    pre: in_part(which * 3 + rtype)
-    post: _ is None
-    """
+def _pull_step(n: int, n2: int, moc: Optional[int], ctype: int, rtype: int, which: int,
+              ns_ok: bool, dflt: int):
     if kf.skip('c14_pull:pull_step', n=n, n2=n2, moc=moc, ctype=ctype, rtype=rtype, which=which, ns_ok=ns_ok):
         return None
     moc = small_concrete(moc)
+    # the server's default batch size is configuration (pywbem_mock.config): any value >= 1
+    mp.DEFAULT_MAX_OBJECT_COUNT = small_concrete(dflt) if moc is None else dflt
     p = Prov(ns_ok)
     mine = mklist(n)
     other = mklist(n2, 100)
@@ -114,6 +110,8 @@ def pull_step(n: int, n2: int, moc: Optional[int], ctype: int, rtype: int, which
     k = len(objs)
     if moc is not None and k > moc:
         return 'more than MaxObjectCount delivered'
+    if moc is None and k > dflt:
+        return 'more than the default batch delivered'
     if list(objs) != src[:k]:
         return 'delivered is not the prefix of the remaining objects'
     rem = p.enumeration_contexts[ctx]['data'] if ctx in p.enumeration_contexts else []
@@ -136,38 +134,48 @@ def pull_step(n: int, n2: int, moc: Optional[int], ctype: int, rtype: int, which
     return None
 
 
-def pull_step_reach(n: int, n2: int, moc: Optional[int], ctype: int, rtype: int, which: int,
-                    ns_ok: bool) -> bool:
+def pull_step(n: int, n2: int, moc: Optional[int], ctype: int, rtype: int, which: int,
+              ns_ok: bool, dflt: int) -> Optional[str]:
     """
-    pre: 1 <= n <= 8 and 1 <= n2 <= 2
+    pre: 1 <= n <= N_MAX and 1 <= n2 <= 2
     pre: moc is None or moc >= 0
     pre: 0 <= ctype < 3 and 0 <= rtype < 3 and 0 <= which < 3
+    pre: in_part(which * 3 + rtype)
+    pre: dflt >= 1
+    post: _ is None
+    """
+    return _pull_step(n, n2, moc, ctype, rtype, which, ns_ok, dflt)
+
+
+def pull_step_reach(n: int, n2: int, moc: Optional[int], ctype: int, rtype: int, which: int,
+                    ns_ok: bool, dflt: int) -> bool:
+    """
+    pre: 1 <= n <= N_MAX and 1 <= n2 <= 2
+    pre: moc is None or moc >= 0
+    pre: 0 <= ctype < 3 and 0 <= rtype < 3 and 0 <= which < 3
+    pre: dflt >= 1
     post: _
     """
     del TAGS[:]
-    r = pull_step(n, n2, moc, ctype, rtype, which, ns_ok)
+    r = _pull_step(n, n2, moc, ctype, rtype, which, ns_ok, dflt)
     return not ('ok' in TAGS and r is None and moc is not None and 0 < moc < n and which == 0)
 
 
-def open_step(n: int, moc: Optional[int], preexisting: int) -> Optional[str]:
-    """
-    pre: 0 <= n <= 8
-    pre: moc is None or moc >= 0
-    pre: 0 <= preexisting <= 2
-    post: _ is None
-    """
+def _open_step(n: int, moc: Optional[int], preexisting: int, dflt: int):
     if kf.skip('c14_pull:open_step', n=n, moc=moc, preexisting=preexisting):
         return None
     moc = small_concrete(moc)
+    mp.DEFAULT_MAX_OBJECT_COUNT = small_concrete(dflt) if moc is None else dflt
     p = Prov(True)
     for i in range(preexisting):
         p.enumeration_contexts['old%d' % i] = {'pull_type': TYPES[0], 'data': [1], 'namespace': 'ns'}
     objs = mklist(n)
     rtn, eos, cid = MainProvider._open_response(p, 'ns', list(objs), TYPES[0], None, moc, None)
     k = len(rtn)
-    eff = moc if moc is not None else 0       # DSP0200: default for Open is zero objects... see below
     if moc is not None and k > moc:
         return 'more than MaxObjectCount delivered on open'
+    if moc is None and k > dflt:
+        return 'more than the default batch delivered on open'
     if list(rtn) != objs[:k]:
         return 'open did not deliver a prefix'
     if (eos == 'TRUE') != (k == n):
@@ -188,23 +196,32 @@ def open_step(n: int, moc: Optional[int], preexisting: int) -> Optional[str]:
     return None
 
 
-def open_step_reach(n: int, moc: Optional[int], preexisting: int) -> bool:
+def open_step(n: int, moc: Optional[int], preexisting: int, dflt: int) -> Optional[str]:
     """
-    pre: 0 <= n <= 8
+    pre: 0 <= n <= N_MAX
     pre: moc is None or moc >= 0
     pre: 0 <= preexisting <= 2
+    pre: dflt >= 1
+    pre: in_part(n)
+    post: _ is None
+    """
+    return _open_step(n, moc, preexisting, dflt)
+
+
+def open_step_reach(n: int, moc: Optional[int], preexisting: int, dflt: int) -> bool:
+    """
+    pre: 0 <= n <= N_MAX
+    pre: moc is None or moc >= 0
+    pre: 0 <= preexisting <= 2
+    pre: dflt >= 1
     post: _
     """
     del TAGS[:]
-    r = open_step(n, moc, preexisting)
-    return not ('ctx' in TAGS and r is None)
+    r = _open_step(n, moc, preexisting, dflt)
+    return not ('ctx' in TAGS and r is None and moc is None)
 
 
-def close_step(which: int, nctx: int, disabled: bool) -> Optional[str]:
-    """
-    pre: 0 <= which <= 3 and 0 <= nctx <= 3
-    post: _ is None
-    """
+def _close_step(which: int, nctx: int, disabled: bool):
     p = Prov(True)
     p.disable_pull_operations = disabled
     for i in range(nctx):
@@ -236,11 +253,19 @@ def close_step(which: int, nctx: int, disabled: bool) -> Optional[str]:
     return 'context accepted after CloseEnumeration'
 
 
+def close_step(which: int, nctx: int, disabled: bool) -> Optional[str]:
+    """
+    pre: 0 <= which <= 3 and 0 <= nctx <= 3
+    post: _ is None
+    """
+    return _close_step(which, nctx, disabled)
+
+
 def close_step_reach(which: int, nctx: int, disabled: bool) -> bool:
     """
     pre: 0 <= which <= 3 and 0 <= nctx <= 3
     post: _
     """
     del TAGS[:]
-    r = close_step(which, nctx, disabled)
+    r = _close_step(which, nctx, disabled)
     return not ('closed' in TAGS and r is None)
